@@ -1,34 +1,39 @@
 -------------------------------- MODULE Poison --------------------------------
-(* DRAFT (round 0).  src/sync/poison.rs + MutexGuard::drop: a guard remembers whether the
+(* src/sync/poison.rs + MutexGuard::drop: a guard remembers whether the
    thread was already panicking when it was created; on drop the lock is poisoned iff a panic
    started *inside* the guard and the coroutine is not being cancelled; the lock is released in
    every case.  Used as the oracle generator for C13 (panic / cancel / normal exit while
    holding), and for RwLock write guards. *)
 EXTENDS Naturals, TLC
-CONSTANTS Actors, How            \* How[a] \in {"normal", "panic", "cancel", "panic_before"}
-VARIABLES locked, poisoned, pc, guardPanicking, panicking, cancelled, sawPoison
-vars == <<locked, poisoned, pc, guardPanicking, panicking, cancelled, sawPoison>>
+CONSTANTS Actors, How,           \* How[a] \in {"normal", "panic", "cancel", "panic_before", "pending_panic"}
+          FixP                   \* FALSE: pinned tree ("is a cancel pending?"), TRUE: repaired ("is this the Cancel unwind?"), F21
+\* "pending_panic": cancel() was called on the running coroutine, and before it reaches a cancellation
+\* point its closure panics for its own reasons inside the guard
+VARIABLES locked, poisoned, pc, guardPanicking, panicking, cancelled, sawPoison, unwinding
+vars == <<locked, poisoned, pc, guardPanicking, panicking, cancelled, sawPoison, unwinding>>
 Init == /\ locked = "free" /\ poisoned = FALSE /\ pc = [a \in Actors |-> "start"]
         /\ guardPanicking = [a \in Actors |-> FALSE] /\ panicking = [a \in Actors |-> FALSE]
         /\ cancelled = [a \in Actors |-> FALSE] /\ sawPoison = [a \in Actors |-> FALSE]
+        /\ unwinding = [a \in Actors |-> FALSE]
 Goto(a, l) == pc' = [pc EXCEPT ![a] = l]
 Start(a) == /\ pc[a] = "start" /\ panicking' = [panicking EXCEPT ![a] = (How[a] = "panic_before")]
-            /\ Goto(a, "lock") /\ UNCHANGED <<locked, poisoned, guardPanicking, cancelled, sawPoison>>
+            /\ Goto(a, "lock") /\ UNCHANGED <<locked, poisoned, guardPanicking, cancelled, sawPoison, unwinding>>
 Lock(a) == /\ pc[a] = "lock" /\ locked = "free" /\ locked' = a
            /\ guardPanicking' = [guardPanicking EXCEPT ![a] = panicking[a]]
            /\ sawPoison' = [sawPoison EXCEPT ![a] = poisoned]          \* LockResult: Err(Poisoned(guard)) still holds
-           /\ Goto(a, "hold") /\ UNCHANGED <<poisoned, panicking, cancelled>>
+           /\ Goto(a, "hold") /\ UNCHANGED <<poisoned, panicking, cancelled, unwinding>>
 Hold(a) == /\ pc[a] = "hold"
-           /\ panicking' = [panicking EXCEPT ![a] = panicking[a] \/ How[a] \in {"panic", "cancel"}]
-           /\ cancelled' = [cancelled EXCEPT ![a] = (How[a] = "cancel")]
+           /\ panicking' = [panicking EXCEPT ![a] = panicking[a] \/ How[a] \in {"panic", "cancel", "pending_panic"}]
+           /\ cancelled' = [cancelled EXCEPT ![a] = (How[a] \in {"cancel", "pending_panic"})]       \* the cancel bit
+           /\ unwinding' = [unwinding EXCEPT ![a] = (How[a] = "cancel")]                           \* trigger_cancel_panic ran
            /\ Goto(a, "drop_guard") /\ UNCHANGED <<locked, poisoned, guardPanicking, sawPoison>>
 Drop(a) == /\ pc[a] = "drop_guard"
-           /\ poisoned' = (poisoned \/ (~guardPanicking[a] /\ panicking[a] /\ ~cancelled[a]))
+           /\ poisoned' = (poisoned \/ (~guardPanicking[a] /\ panicking[a] /\ ~(IF FixP THEN unwinding[a] ELSE cancelled[a])))
            /\ locked' = "free" /\ Goto(a, "done")
-           /\ UNCHANGED <<guardPanicking, panicking, cancelled, sawPoison>>
+           /\ UNCHANGED <<guardPanicking, panicking, cancelled, sawPoison, unwinding>>
 AllOver == \A a \in Actors : pc[a] = "done"
 Next == (\E a \in Actors : Start(a) \/ Lock(a) \/ Hold(a) \/ Drop(a)) \/ (AllOver /\ UNCHANGED vars)
 Spec == Init /\ [][Next]_vars
-PoisonIffPanic == poisoned <=> \E a \in Actors : pc[a] = "done" /\ How[a] = "panic"
+PoisonIffPanic == poisoned <=> \E a \in Actors : pc[a] = "done" /\ How[a] \in {"panic", "pending_panic"}
 ReleasedAnyway == AllOver => locked = "free"
 =============================================================================
